@@ -203,6 +203,12 @@ def streams(rng, tier):
         for n in (1, 2, 5):
             cs.append({"op": "na", "fn": "fillna", "a": [["N"]] * n, "v": v})
     out.append(("na", cs))
+    lived = []
+    for name, cases in out:
+        cand = [c for c in cases if len(c.get("a") or []) >= 2 and "via" not in c]
+        for c in rng.sample(cand, min(len(cand), 300 if not thorough else 3000)):
+            lived.append(dict(c, lived=rng.randrange(1 << 30)))
+    out.append(("lived-in", lived))      # the same cases on lived-in operands (values.lived_in)
     return [(name, c05._dedupe(cases)) for name, cases in out]
 
 
@@ -487,7 +493,12 @@ def observe(case):
         op = case["op"]
         if op in ("bin", "un"):
             return c05.observe(case)
-        return {"cmp": _obs_cmp, "red": _obs_red, "na": _obs_na}[op](case)
+        c05._LIVED = case.get("lived")
+        before = V.LIVED_REALISED[0]
+        o = {"cmp": _obs_cmp, "red": _obs_red, "na": _obs_na}[op](case)
+        if c05._LIVED is not None:
+            o["lived_ok"] = V.LIVED_REALISED[0] > before
+        return o
     except Exception as e:
         return {"broken": f"{type(e).__name__}: {e}"[:200]}
 
@@ -707,6 +718,12 @@ def nontrivial(case, obs):
 
 
 def describe(case, obs, stream):
+    if "lived" in case:
+        return ["lived-in:" + ("history realised" if obs.get("lived_ok") else "fell back to a fresh vector")]
+    return _describe(case, obs, stream)
+
+
+def _describe(case, obs, stream):
     if "skip" in obs:
         return [f"{stream}:skipped"]
     ref = obs.get("ref")
